@@ -76,6 +76,13 @@ Example C12_example :
   end.
 Proof. vm_compute. split; reflexivity. Qed.
 
+(** the location the lexer reports after a token ([current_loc()]; the parser stamps empty blocks and `listen`
+    statements without destination with it): the true position just past the token and the apostrophes swallowed
+    with it — its line, and its byte offset within that line *)
+Theorem C12_post_loc_true :
+  forall prof src pts, byte_len src < u32_limit -> lex prof src = Ok pts -> Forall (ploc_in src) pts.
+Proof. exact lex_post_locs. Qed.
+
 Print Assumptions C12_lex_stream.
 Print Assumptions C12_tokens_are_slices.
 Print Assumptions C12_tokens_ordered.
